@@ -712,6 +712,39 @@ Proof.
     rewrite (c06_margin_proof p fp b a Hp Hfp Hb Ha (not_eq_sym Hab)). exact Hm.
 Qed.
 
+Theorem c06_dict_entries_proof :
+  (forall a b v, In (a, b, v) es ->
+     In a (cands p) /\ In b (cands p) /\ a <> b /\
+     v == margin (ballots p) a b /\ 0 <= margin (ballots p) a b) /\
+  (forall a b, In a (cands p) -> In b (cands p) -> a <> b -> 0 <= margin (ballots p) a b ->
+     exists v, In (a, b, v) es /\ v == margin (ballots p) a b) /\
+  NoDup (map fst es).
+Proof.
+  split; [exact c06_dict_sound_proof|]. split; [exact c06_dict_complete_proof|exact c06_dict_keys_proof].
+Qed.
+
+Lemma margin_antisym : forall a b, margin (ballots p) b a == - margin (ballots p) a b.
+Proof. intros a b. unfold PairwiseSpec.margin. ring. Qed.
+
+(* the two cases of the property text: a non-zero margin is recorded once, for the winner;
+   a zero margin is recorded in both directions with value 0 *)
+Theorem c06_dict_cases_proof : forall a b, In a (cands p) -> In b (cands p) -> a <> b ->
+  (0 < margin (ballots p) a b ->
+     (exists v, In (a, b, v) es /\ v == margin (ballots p) a b) /\ (forall v, ~ In (b, a, v) es)) /\
+  (margin (ballots p) a b == 0 ->
+     (exists v, In (a, b, v) es /\ v == 0) /\ (exists v, In (b, a, v) es /\ v == 0)).
+Proof.
+  intros a b Ha Hb Hab. pose proof (margin_antisym a b) as Hanti. split.
+  - intros Hpos. split.
+    + apply c06_dict_complete_proof; auto. apply Qlt_le_weak. exact Hpos.
+    + intros v Hin. apply c06_dict_sound_proof in Hin. destruct Hin as [_ [_ [_ [_ Hm]]]]. lra.
+  - intros Hz. split.
+    + destruct (c06_dict_complete_proof a b Ha Hb Hab) as [v [Hv Hveq]]; [lra|].
+      exists v. split; [exact Hv|lra].
+    + destruct (c06_dict_complete_proof b a Hb Ha (not_eq_sym Hab)) as [v [Hv Hveq]]; [lra|].
+      exists v. split; [exact Hv|lra].
+Qed.
+
 End OfProfile.
 
 End Pairwise.
